@@ -28,6 +28,34 @@ def run_cli(args, seed, cwd, extra_env=None):
     return p.stdout.decode('utf-8', 'replace'), p.stderr.decode('utf-8', 'replace'), p.returncode
 
 
+def run_pty(args, cwd):
+    """stdout of the tool on a pseudo-terminal (TERM=xterm)"""
+    import pty
+    import select
+    env = dict(os.environ)
+    env.update({'PYTHONPATH': common.REPO, 'PYTHONHASHSEED': '0', 'LC_ALL': 'C.UTF-8', 'TERM': 'xterm'})
+    cmd = [common.PY, os.path.join(common.REPO, 'i18nspector')] + args
+    pid, fd = pty.fork()
+    if pid == 0:
+        os.chdir(cwd)
+        os.execve(cmd[0], cmd, env)
+    data = b''
+    while True:
+        try:
+            r, _, _ = select.select([fd], [], [], 120)
+            if not r:
+                break
+            chunk = os.read(fd, 65536)
+        except OSError:
+            break
+        if not chunk:
+            break
+        data += chunk
+    os.waitpid(pid, 0)
+    os.close(fd)
+    return data.decode('utf-8', 'replace').replace('\r\n', '\n')
+
+
 def build_files(ctx, d):
     """black-box test files of the repository + generated catalogs that exercise set/dict iteration"""
     rng = ctx.rng
@@ -75,6 +103,15 @@ def build_files(ctx, d):
         text = ('msgid ""\nmsgstr ""\n"Content-Type: text/plain; charset=%s\\n"\n"Language: pl\\n"\n\n'
                 'msgid "%s fox\\n"\nmsgstr "%s lis"\n\nmsgid "%s"\nmsgstr "\\303\\251%s"\n') % (cs, esc, esc, 'caf' + esc, esc)
         name = 'escaped-%s.po' % cs.lower()
+        with open(os.path.join(d, name), 'w', encoding='ascii') as f:
+            f.write(text)
+        files.append(name)
+    # one language with and without a modifier (different character lists) under one charset; the same language under different
+    # charsets; the same charset under different languages: whatever is remembered about one file must not colour the next
+    for lang, cs in (('sr', 'ISO-8859-5'), ('sr@latin', 'ISO-8859-5'), ('sr', 'ISO-8859-2'), ('sr@latin', 'ISO-8859-2'), ('be', 'ISO-8859-5'), ('be@latin', 'ISO-8859-5'),
+                     ('pl', 'ISO-8859-1'), ('pl', 'ISO-8859-2'), ('de', 'ISO-8859-1'), ('el', 'ISO-8859-7'), ('el', 'ISO-8859-1'), ('uz', 'ISO-8859-9'), ('uz@cyrillic', 'ISO-8859-9')):
+        text = 'msgid ""\nmsgstr ""\n"Content-Type: text/plain; charset=%s\\n"\n"Language: %s\\n"\n\nmsgid "a"\nmsgstr "b"\n' % (cs, lang)
+        name = 'lang-%s-%s.po' % (lang.replace('@', '_at_'), cs.lower())
         with open(os.path.join(d, name), 'w', encoding='ascii') as f:
             f.write(text)
         files.append(name)
@@ -132,6 +169,11 @@ def check(ctx):
         for f in rng.sample(files, 6 if ctx.quick() else 30) + ['brace-types.po', 'xgettext-template.pot']:
             configs.append(('history %s before probe %s' % (f, pr[0]), [f] + pr, 3, []))
             configs.append(('history %s after probe %s' % (f, pr[0]), pr + [f], 0, []))
+    lang_files = [f for f in files if f.startswith('lang-')]
+    for k in range(len(lang_files)):
+        configs.append(('language/charset files rotated by %d' % k, lang_files[k:] + lang_files[:k], 0, []))
+    configs.append(('language/charset files reversed', lang_files[::-1], 1, []))
+    configs.append(('language/charset files reversed j=2', lang_files[::-1], 1, ['-j', '2']))
     esc_files = [f for f in files if f.startswith('escaped-')]
     for k in range(len(esc_files)):
         configs.append(('escaped-bytes files rotated by %d' % k, esc_files[k:] + esc_files[:k], 0, []))
@@ -227,6 +269,24 @@ def check(ctx):
                                  'the output is not the concatenation of the single-argument runs; first difference: %r' % (first_diff(out, want),), finding=None)
                     else:
                         ctx.nontriv(('pkgmix', pkg, tuple(order), tuple(opts)))
+    # ---- on a terminal: the coloured output of a -j run equals the coloured output of the sequential run
+    probe_files = [f for f in ('brace-types.po', 'xgettext-template.pot') if f in files] + lang_files[:2]
+    try:
+        t1 = run_pty(probe_files, d)
+        if '\x1b[' in t1:
+            for j in ('2', '4'):
+                tj = run_pty(['-j', j] + probe_files, d)
+                ctx.evaluations += 1
+                ctx.count('pty-run')
+                if tj != t1:
+                    ctx.fail('context-dependence', {'config': 'stdout on a terminal (TERM=xterm), -j %s' % j, 'files': probe_files},
+                             'the output on a terminal differs between the sequential run and -j %s; first difference: %r' % (j, first_diff(tj, t1)))
+                else:
+                    ctx.nontriv(('pty', j))
+        else:
+            ctx.notes.append('pseudo-terminal run printed no colour: the -j / terminal comparison was skipped')
+    except OSError as e:
+        ctx.notes.append('no pseudo-terminal available: %s' % e)
     ctx.samples = [{'config': c[0], 'nfiles': (len(c[1]) if c[1] else len(files))} for c in configs[:10]]
     ctx.stats['files'] = len(files)
     shutil.rmtree(d, ignore_errors=True)
